@@ -502,12 +502,13 @@ impl PredecessorTree {
     // `s < self.pred.len()`: for s out of range the function panics in `self.pred[s]` (documented
     // panic of Vec indexing, a safe operation); vstd's Vec::index demands the bound, so the panic
     // case is outside this contract. No assumption whatsoever is made on the ENTRIES of `pred`.
-    /*@fn impl=PredecessorTree name=search_by
+    // no range precondition on `s`: `self.pred[s]` panics for a start vertex outside the tree (documented; rule E4b)
+    /*@fn impl=PredecessorTree name=search_by safeindex
     requires
-        s < self.pred.len(),
         callable(is_target),
         deterministic(is_target),
     ensures
+        s < self.pred.len(),
         match r {
             Some(p) => found(self.pred@, is_target, s, p@),
             None => never(self.pred@, is_target, s),
@@ -566,9 +567,8 @@ impl PredecessorTree {
 
     // search(s, t) is search_by with the predicate "vertex equals t"
     /*@fn impl=PredecessorTree name=search
-    requires
-        s < self.pred.len(),
     ensures
+        s < self.pred.len(),
         match r {
             Some(p) => exists|k: nat| chain(self.pred@, s, k) == Some(t) && t < self.pred.len()
                 && (forall|j: nat| j < k ==> chain(self.pred@, s, j) != Some(t))
